@@ -11,7 +11,7 @@
 From Coq Require Import NArith Bool List Lia.
 From RS.Gen Require Import Prelude GenConsts.
 From RS.Model Require Import Field Tables Sched Codec Spec.
-From RS.Proofs Require Import RoundLow RoundHigh.
+From RS.Proofs Require Import RoundLow RoundHigh RoundShards.
 Import ListNotations.
 Local Open Scope N_scope.
 
@@ -48,6 +48,37 @@ Theorem C01_high : forall (e e' : engine) (K R : N) (recv : N -> bool) (k kn : n
   nth (N.to_nat (2 ^ N.of_nat k + i)) (snd (decode_high_work sym_ops e' K R recv work)) 0 = nth (N.to_nat i) w 0.
 Proof. intros e e' K R recv k kn w work; intros. eapply (decode_high_roundtrip e e' K R recv k kn); eassumption. Qed.
 Print Assumptions C01_high.
+
+(* whole shards (lists of 16-bit lanes): the restored shard is the original shard *)
+Theorem C01_low_shards : forall lanes (e e' : engine) (K R : N) (recv : N -> bool) (k kn : nat) (w work : list (list N)),
+  1 <= K -> 1 <= R -> (kn <= 16)%nat ->
+  Forall (fun s => length s = lanes) w -> Forall (Forall (fun x => x < 65536)) w ->
+  Forall (fun s => length s = lanes) work -> Forall (Forall (fun x => x < 65536)) work -> length work = Nat.pow 2 kn ->
+  npow2 K = 2 ^ N.of_nat k -> 2 ^ N.of_nat k + R <= 65536 -> 2 ^ N.of_nat k + R <= 2 ^ N.of_nat kn ->
+  (N.to_nat (2 ^ N.of_nat k) <= length w)%nat ->
+  (forall i, i < K -> recv i = true -> nth (N.to_nat i) work [] = nth (N.to_nat i) w []) ->
+  (forall j, j < R -> recv (2 ^ N.of_nat k + j) = true ->
+     nth (N.to_nat (2 ^ N.of_nat k + j)) work [] = nth (N.to_nat j) (encode_low (shard_ops lanes) e K R w) []) ->
+  (N.to_nat K <= cnt recv 0 K + cnt recv (2 ^ N.of_nat k) (2 ^ N.of_nat k + R))%nat ->
+  forall i, i < K -> recv i = false ->
+  nth (N.to_nat i) (snd (decode_low_work (shard_ops lanes) e' K R recv work)) [] = nth (N.to_nat i) w [].
+Proof. intros lanes e e' K R recv k kn w work; intros. eapply (decode_low_roundtrip_shards lanes e e' K R recv k kn); eassumption. Qed.
+Print Assumptions C01_low_shards.
+
+Theorem C01_high_shards : forall lanes (e e' : engine) (K R : N) (recv : N -> bool) (k kn : nat) (w work : list (list N)),
+  1 <= K -> 1 <= R -> (kn <= 16)%nat ->
+  Forall (fun s => length s = lanes) w -> Forall (Forall (fun x => x < 65536)) w ->
+  Forall (fun s => length s = lanes) work -> Forall (Forall (fun x => x < 65536)) work -> length work = Nat.pow 2 kn ->
+  npow2 R = 2 ^ N.of_nat k -> 2 ^ N.of_nat k + K <= 65536 -> 2 ^ N.of_nat k + K <= 2 ^ N.of_nat kn ->
+  length w = N.to_nat (high_enc_work_count K R) ->
+  (forall j, j < R -> recv j = true ->
+     nth (N.to_nat j) work [] = nth (N.to_nat j) (encode_high (shard_ops lanes) e K R w) []) ->
+  (forall i, i < K -> recv (2 ^ N.of_nat k + i) = true -> nth (N.to_nat (2 ^ N.of_nat k + i)) work [] = nth (N.to_nat i) w []) ->
+  (N.to_nat K <= cnt recv 0 R + cnt recv (2 ^ N.of_nat k) (2 ^ N.of_nat k + K))%nat ->
+  forall i, i < K -> recv (2 ^ N.of_nat k + i) = false ->
+  nth (N.to_nat (2 ^ N.of_nat k + i)) (snd (decode_high_work (shard_ops lanes) e' K R recv work)) [] = nth (N.to_nat i) w [].
+Proof. intros lanes e e' K R recv k kn w work; intros. eapply (decode_high_roundtrip_shards lanes e e' K R recv k kn); eassumption. Qed.
+Print Assumptions C01_high_shards.
 
 Definition data (K : N) : list N := map (fun i => (i * 40503 + 977) mod 65536) (range 0 K).
 Definition junkv (i : N) : N := (i * 7919 + 4242) mod 65536.
